@@ -49,7 +49,7 @@ GETTEXT_FUNCTIONS: tuple[str, ...] = (
     "pgettext",
     "npgettext",
 )
-_ws_re = re.compile(r"\s*\n\s*")
+_ws_re = re.compile(r"\s*(?:\r\n|\r|\n)\s*")
 
 
 class Extension:
